@@ -117,6 +117,18 @@ def spellingOK (e : Env) : Bool :=
                  (match a.bound with | some b => e.sameListen b a.spelling | none => true)
      | none => true)
 
+/-- The port a proxy's listen address denotes (if the address table knows it). -/
+def ProxyRec.port (e : Env) (p : ProxyRec) : Option Nat := (e.lookup p.listen).map (·.port)
+
+/-- The address a started listener reports is a spelling of the table, with the same port
+(hypothesis of the port-exclusivity invariant, `Proofs/Lemmas/Ports.lean`; evaluated by the
+model driver on the table measured from the real `net.Listen` in every session). -/
+def boundOK (e : Env) : Bool :=
+  e.addrs.all fun a =>
+    match a.bound with
+    | some b => (match e.lookup b with | some a' => a'.port == a.port | none => false)
+    | none => true
+
 /-! ## Requests and responses -/
 
 inductive Method where | get | post | patch | delete | put | other
